@@ -368,3 +368,354 @@ func TestW_followingOfAttribute(t *testing.T) {
 		t.Errorf("following::* of b: got %v (%v), want c d", got, err)
 	}
 }
+
+// ---------------------------------------------------------------------------
+// Probe (not part of any check): every axis from every context node of a few documents against a
+// direct reading of the XPath 1.0 axis definitions on the test tree. Used to look for defects the
+// contracts do not reach; what it finds becomes a fix: commit plus a contract obligation.
+type pnode struct {
+	n *TNode
+	a int
+}
+
+func pAll(root *TNode) (out []pnode) {
+	var walk func(n *TNode)
+	walk = func(n *TNode) {
+		out = append(out, pnode{n, -1})
+		for c := n.FirstChild; c != nil; c = c.NextSibling {
+			walk(c)
+		}
+	}
+	walk(root)
+	return
+}
+
+func pDesc(n *TNode) (out []pnode) {
+	for c := n.FirstChild; c != nil; c = c.NextSibling {
+		out = append(out, pnode{c, -1})
+		out = append(out, pDesc(c)...)
+	}
+	return
+}
+
+func pAxis(root *TNode, c pnode, axis string) (out []pnode) {
+	n := c.n
+	isAttr := c.a != -1
+	anc := func(m *TNode) (o []pnode) {
+		for p := m.Parent; p != nil; p = p.Parent {
+			o = append(o, pnode{p, -1})
+		}
+		return
+	}
+	isAnc := func(x, of *TNode) bool {
+		for p := of.Parent; p != nil; p = p.Parent {
+			if p == x {
+				return true
+			}
+		}
+		return false
+	}
+	all := pAll(root)
+	idx := func(m *TNode) int {
+		for i, x := range all {
+			if x.n == m {
+				return i
+			}
+		}
+		return -1
+	}
+	switch axis {
+	case "self":
+		return []pnode{c}
+	case "parent":
+		if isAttr {
+			return []pnode{{n, -1}}
+		}
+		if n.Parent != nil {
+			return []pnode{{n.Parent, -1}}
+		}
+	case "ancestor":
+		if isAttr {
+			return append([]pnode{{n, -1}}, anc(n)...)
+		}
+		return anc(n)
+	case "ancestor-or-self":
+		return append([]pnode{c}, pAxis(root, c, "ancestor")...)
+	case "child":
+		if !isAttr {
+			for k := n.FirstChild; k != nil; k = k.NextSibling {
+				out = append(out, pnode{k, -1})
+			}
+		}
+	case "descendant":
+		if !isAttr {
+			return pDesc(n)
+		}
+	case "descendant-or-self":
+		return append([]pnode{c}, pAxis(root, c, "descendant")...)
+	case "attribute":
+		if !isAttr {
+			for i := range n.Attr {
+				out = append(out, pnode{n, i})
+			}
+		}
+	case "following-sibling":
+		if !isAttr {
+			for k := n.NextSibling; k != nil; k = k.NextSibling {
+				out = append(out, pnode{k, -1})
+			}
+		}
+	case "preceding-sibling":
+		if !isAttr {
+			for k := n.PrevSibling; k != nil; k = k.PrevSibling {
+				out = append(out, pnode{k, -1})
+			}
+		}
+	case "following":
+		i := idx(n)
+		for _, x := range all[i+1:] {
+			if isAttr || !isAnc(n, x.n) {
+				out = append(out, x)
+			}
+		}
+	case "preceding":
+		i := idx(n)
+		for _, x := range all[:i] {
+			if !isAnc(x.n, n) {
+				out = append(out, x)
+			}
+		}
+	}
+	return
+}
+
+func pMatch(x pnode, axis, test string) bool {
+	if test == "node()" {
+		return true
+	}
+	if axis == "attribute" {
+		return test == "*" || x.n.Attr[x.a].Key == test
+	}
+	if x.a != -1 {
+		return false
+	}
+	if x.n.Type != ElementNode {
+		return false
+	}
+	return test == "*" || x.n.Data == test
+}
+
+func TestProbe_axes(t *testing.T) {
+	docs := []string{
+		`<r><a x="1" y="2"><b><g/>t</b><c/></a><d z="3"/><b/><!--k--></r>`,
+		`<r a="1"><r a="2"><r/></r>text<b/></r>`,
+	}
+	axes := []string{"self", "parent", "ancestor", "ancestor-or-self", "child", "descendant", "descendant-or-self", "attribute", "following-sibling", "preceding-sibling", "following", "preceding"}
+	tests := []string{"node()", "*", "b", "r", "x", "a"}
+	bad := 0
+	for _, ds := range docs {
+		root := wdoc(ds)
+		var ctxs []pnode
+		for _, x := range pAll(root) {
+			ctxs = append(ctxs, x)
+			for i := range x.n.Attr {
+				ctxs = append(ctxs, pnode{x.n, i})
+			}
+		}
+		for _, c := range ctxs {
+			for _, ax := range axes {
+				for _, nt := range tests {
+					expr := ax + "::" + nt
+					var want []pnode
+					for _, x := range pAxis(root, c, ax) {
+						if pMatch(x, ax, nt) {
+							want = append(want, x)
+						}
+					}
+					e, err := Compile(expr)
+					if err != nil {
+						t.Fatalf("%s: %v", expr, err)
+					}
+					got := map[pnode]int{}
+					func() {
+						defer func() {
+							if r := recover(); r != nil {
+								t.Errorf("%s: panic %v", expr, r)
+							}
+						}()
+						it := e.Select(&TNodeNavigator{curr: c.n, root: root, attr: c.a})
+						for k := 0; it.MoveNext() && k < 1000; k++ {
+							cur := it.Current().(*TNodeNavigator)
+							got[pnode{cur.curr, cur.attr}]++
+						}
+					}()
+					ok := len(got) == len(want)
+					for _, w := range want {
+						if got[w] != 1 {
+							ok = false
+						}
+					}
+					if !ok && bad < 25 {
+						bad++
+						t.Errorf("doc %q ctx (%s,%d) %s: got %d nodes, want %d", ds, c.n.Data, c.a, expr, len(got), len(want))
+					}
+				}
+			}
+		}
+	}
+}
+
+func TestProbe_twoSteps(t *testing.T) {
+	docs := []string{
+		`<r><a x="1" y="2"><b><g/>t</b><c/></a><d z="3"/><b/><!--k--></r>`,
+		`<r a="1"><r a="2"><r/></r>text<b/></r>`,
+	}
+	axes := []string{"self", "parent", "ancestor", "ancestor-or-self", "child", "descendant", "descendant-or-self", "attribute", "following-sibling", "preceding-sibling", "following", "preceding"}
+	tests := []string{"node()", "*", "b", "r"}
+	bad := 0
+	for _, ds := range docs {
+		root := wdoc(ds)
+		var ctxs []pnode
+		for _, x := range pAll(root) {
+			ctxs = append(ctxs, x)
+			for i := range x.n.Attr {
+				ctxs = append(ctxs, pnode{x.n, i})
+			}
+		}
+		for _, c := range ctxs {
+			for _, ax1 := range axes {
+				for _, ax2 := range axes {
+					for _, nt := range tests {
+						expr := ax1 + "::node()/" + ax2 + "::" + nt
+						want := map[pnode]bool{}
+						for _, m := range pAxis(root, c, ax1) {
+							for _, x := range pAxis(root, m, ax2) {
+								if pMatch(x, ax2, nt) {
+									want[x] = true
+								}
+							}
+						}
+						e, err := Compile(expr)
+						if err != nil {
+							t.Fatalf("%s: %v", expr, err)
+						}
+						got := map[pnode]int{}
+						func() {
+							defer func() {
+								if r := recover(); r != nil {
+									t.Errorf("%s: panic %v", expr, r)
+								}
+							}()
+							it := e.Select(&TNodeNavigator{curr: c.n, root: root, attr: c.a})
+							for k := 0; it.MoveNext() && k < 5000; k++ {
+								cur := it.Current().(*TNodeNavigator)
+								got[pnode{cur.curr, cur.attr}]++
+							}
+						}()
+						ok := len(got) == len(want)
+						for w := range want {
+							if got[w] == 0 {
+								ok = false
+							}
+						}
+						if !ok && bad < 30 {
+							bad++
+							t.Errorf("doc %q ctx (%s,%d) %s: got %d distinct nodes, want %d", ds, c.n.Data, c.a, expr, len(got), len(want))
+						}
+					}
+				}
+			}
+		}
+	}
+}
+
+func TestProbe_order(t *testing.T) {
+	docs := []string{
+		`<r><a x="1" y="2"><b><g/>t</b><c/></a><d z="3"/><b/><a><b/><b w="1"/></a></r>`,
+		`<r a="1"><r a="2"><r><b/></r></r>text<b/></r>`,
+	}
+	exprs := []string{"//b", "//*", "//r", "/r/*", "/r/*/*", "*/*", "/r/a/b", "//node()", "/r/*/@*", "/r/a/@x", "*", "./*/*/self::*", "//@*", "/r//b", "a//b", "//text()"}
+	for _, ds := range docs {
+		root := wdoc(ds)
+		order := map[pnode]int{}
+		k := 0
+		for _, x := range pAll(root) {
+			order[x] = k
+			k++
+			for i := range x.n.Attr {
+				order[pnode{x.n, i}] = k
+				k++
+			}
+		}
+		for _, c := range []pnode{{root, -1}, {root.FirstChild, -1}} {
+			for _, ex := range exprs {
+				e, err := Compile(ex)
+				if err != nil {
+					t.Fatalf("%s: %v", ex, err)
+				}
+				it := e.Select(&TNodeNavigator{curr: c.n, root: root, attr: c.a})
+				last := -1
+				for n := 0; it.MoveNext() && n < 1000; n++ {
+					cur := it.Current().(*TNodeNavigator)
+					o := order[pnode{cur.curr, cur.attr}]
+					if o <= last {
+						t.Errorf("doc %q ctx %s %s: node %d reported after node %d (order/duplicate)", ds, c.n.Data, ex, o, last)
+						break
+					}
+					last = o
+				}
+			}
+		}
+	}
+}
+
+func TestProbe_positions(t *testing.T) {
+	ds := `<r><a><b i="1"/><c/><b i="2"/><b i="3"/></a><a><b i="4"/></a><a/><b i="5"/></r>`
+	root := wdoc(ds)
+	sel := func(ex string) []string {
+		e, err := Compile(ex)
+		if err != nil {
+			t.Fatalf("%s: %v", ex, err)
+		}
+		it := e.Select(&TNodeNavigator{curr: root, root: root, attr: -1})
+		var out []string
+		for n := 0; it.MoveNext() && n < 100; n++ {
+			cur := it.Current().(*TNodeNavigator)
+			out = append(out, cur.curr.Data+cur.curr.getAttribute("i"))
+		}
+		return out
+	}
+	cases := map[string]string{
+		"/r/a/b[1]":                  "b1 b4",
+		"/r/a/b[2]":                  "b2",
+		"/r/a/b[last()]":             "b3 b4",
+		"/r/a/b[last()-1]":           "b2",
+		"/r/a/b[position()=2]":       "b2",
+		"/r/a/b[position()>1]":       "b2 b3",
+		"/r/a/*[2]":                  "c",
+		"/r/a/*[position()=last()]":  "b3 b4",
+		"(/r/a/b)[2]":                "b2",
+		"(/r/a/b)[4]":                "b4",
+		"(//b)[5]":                   "b5",
+		"//b[1]":                     "b5 b1 b4", // the right set; not in document order (order of predicate paths is outside C12)
+		"/r/a/b[1][@i]":              "b1 b4",
+		"/r/a[b][2]":                 "a",
+		"/r/*[last()]":               "b5",
+		"/r/a[2]/b[1]":               "b4",
+		"/r/a[last()]":               "a",
+		"//a/b[position()=last()]":   "b3 b4",
+		"/r/a/b[position()<last()]":  "b1 b2",
+		"/r/a[1]/b[position()!=2]":   "b1 b3",
+	}
+	// Divergences seen by this probe that lie outside the statements of C02/C03 (kept as a record,
+	// not asserted): /r/a/b[@i>1][1] yields b2 only (XPath: b2 b4 — a positional predicate after a
+	// boolean one counts across parents); (//b)[last()] yields b3 (XPath: b5) and
+	// (/r/a/b)[position()<3] yields b1 b2 b4 (XPath: b1 b2) — on a parenthesised path only [n] is
+	// counted over the whole path.
+	for ex, want := range cases {
+		got := strings.Join(sel(ex), " ")
+		if got != want {
+			t.Errorf("%s: got %q want %q", ex, got, want)
+		}
+	}
+}
